@@ -102,6 +102,10 @@ def do_op(f, kind, t, km, vm, op):
     elif n == "difference":
         a, _, _ = build(f, "Set", op[1])
         return list(f.func("difference", "C")(t, a))
+    elif n in ("wunion", "wintersection"):
+        a, _, _ = build(f, op[2], op[1])
+        w, r = f.func("weightedUnion" if n == "wunion" else "weightedIntersection", "C")(t, a, 2, 3)
+        return [w, list(r.items()) if hasattr(r, "items") else list(r)]
     elif n == "multiunion":
         a, _, _ = build(f, "Set", op[1])
         if getattr(t, "_p_jar", None) is None:
